@@ -35,6 +35,15 @@ pub fn decompress(
         compressed
     };
 
+    // One input byte encodes at most 128 output bytes: a larger declared size is not
+    // something this data can produce
+    if decompressed_size > data.len().saturating_mul(128) {
+        return Err(Error::compression(format!(
+            "RLE data of {} bytes cannot expand to the declared {decompressed_size} bytes",
+            data.len()
+        )));
+    }
+
     // Pre-fill with zeros
     let mut decompressed = vec![0u8; decompressed_size];
 
